@@ -311,6 +311,31 @@ fn run(sh: &mut Shard) {
         sh.pair(&(text.as_str(), render(&o)));
         sh.nontrivial(&(profile, "table", &text));
     }
+    // ... and of every ordered pair of constructs, the builtin slice and the heap slice
+    crate::compose::for_each(2, &mut |_, prog| {
+        if !sh.mine() {
+            return sh.running();
+        }
+        let text = printer::program(prog);
+        sh.begin(&|| text.clone());
+        sh.count(&format!("table:{profile}"));
+        let o = sched::solo(&text, 100_000);
+        sh.pair(&(text.as_str(), render(&o)));
+        sh.running()
+    });
+    for sl in slices::slices().into_iter().filter(|s| matches!(s.name, "builtin" | "heap-local" | "gc")) {
+        slices::for_each_program(&sl, Tier::Quick, sh, &mut |sh, prog| {
+            if !sh.mine() {
+                return sh.running();
+            }
+            let text = printer::program(prog);
+            sh.begin(&|| text.clone());
+            sh.count(&format!("table:{profile}"));
+            let o = sched::solo(&text, 100_000);
+            sh.pair(&(text.as_str(), render(&o)));
+            sh.running()
+        });
+    }
     let arith = slices::slices().into_iter().find(|s| s.name == "arith");
     if let Some(sl) = arith {
         slices::for_each_program(&sl, Tier::Quick, sh, &mut |sh, prog| {
